@@ -15,6 +15,7 @@ import BioCantor.Proofs.DigClasses
 import BioCantor.Proofs.DigDict
 import BioCantor.Proofs.DigImage
 import BioCantor.Proofs.DigSchema
+set_option autoImplicit false   -- an unresolved name in a statement must be an error, never a bound variable
 namespace BioCantor.Props.C08
 open BioCantor BioCantor.Spec.Digest BioCantor.Model.Digest BioCantor.Proofs.Dig
 open BioCantor.Spec.Qual (Str strLt strLe)
